@@ -345,6 +345,9 @@ class Lexer(object):
                     check_token.type in TOKENS_THAT_IMPLY_DIVISON or
                     # a reserved word used as a property name (a.in / 2)
                     self._is_property_name(check_token))
+                # the ) of an if/for/while/with header is followed by a
+                # statement, whatever layout sits in between.
+                and not getattr(check_token, 'closes_header', False)
             ) and (
                 self.token_stack[-1][0] is None or (
                     # if the token on the stack is the same, the
